@@ -408,7 +408,14 @@ func execW1(t *testing.T, seed uint64, c *w1Case, cfg config.Config, script []mo
 		}
 	}
 	if ex.res.Stuck && ex.vio == nil {
-		ex.infra = "run stuck: " + ex.res.StuckInfo
+		if strings.Contains(ex.res.StuckInfo, "at=mutex.Lock") {
+			// a task of the device waits for one of the device's own mutexes and nothing in the run can move any more:
+			// the device has locked itself up (the harness holds none of these mutexes)
+			ex.vio = &Vio{Props: []string{prop}, Clause: "device_locks_up", Sig: c.scenario,
+				Detail: "the run cannot continue, a task of the device waits for a mutex for ever: " + ex.res.StuckInfo}
+		} else {
+			ex.infra = "run stuck: " + ex.res.StuckInfo
+		}
 	}
 	return ex
 }
